@@ -628,7 +628,15 @@ def render(sites, repo):
 def generate(repo=None, out=None):
     repo = repo or os.environ.get("MSDM_REPO", "/repo")
     out = out or os.path.join(ROOT, "coq", "gen", "Sites.v")
-    sites = extract(repo)
+    try:
+        sites = extract(repo)
+    except Exception as e:
+        # fail closed: leave NO stale table behind — an empty one breaks sites_cover_components (and the build)
+        text = render([], repo).replace("(* GENERATED", "(* EXTRACTION FAILED: %s *)\n(* GENERATED" % str(e).replace("*)", "* )")[:400], 1)
+        os.makedirs(os.path.dirname(out), exist_ok=True)
+        with open(out, "w") as f:
+            f.write(text)
+        raise
     text = render(sites, repo)
     old = None
     if os.path.exists(out):
